@@ -166,6 +166,13 @@ func (combatComp) Exec(c *wire.Case, w *wire.Writer) {
 		e.Hit.Attacker.AddProperty("hadj", prop.AllDamagePercent, hitAdj.Flt("hdmg"))
 		e.Hit.Attacker.AddProperty("hadj", prop.CritChance, hitAdj.Flt("hcrit"))
 		e.Hit.Defender.AddProperty("hadj", prop.AllDamageTaken, hitAdj.Flt("htaken"))
+		// a further damage reduction of the defender and a further fatigue of the attacker: these stack multiplicatively with what is there
+		if x := hitAdj.Flt("hreduce"); x != 0 {
+			e.Hit.Defender.AddProperty("hadj", prop.AllDamageReduce, x)
+		}
+		if x := hitAdj.Flt("hfatigue"); x != 0 {
+			e.Hit.Attacker.AddProperty("hadj", prop.Fatigue, x)
+		}
 	})
 	// units registered with revive=1 hold their death back (LimboWaitHeal cancelled): they wait at 0 HP for a heal
 	revive := map[key.TargetID]bool{}
@@ -351,7 +358,8 @@ func attackOp(r *rand.Rand, k int, src cunit, targets []int) *wire.Rec {
 		if len(targets) > 0 && r.Intn(3) != 0 {
 			only = targets[r.Intn(len(targets))]
 		}
-		op.I("hadj", 1).I("honly", only).F("hdmg", pick(r, 0.0, 0.5, 1)).F("hcrit", pick(r, 0.0, 0.3, 1)).F("htaken", pick(r, 0.0, 0.25))
+		op.I("hadj", 1).I("honly", only).F("hdmg", pick(r, 0.0, 0.5, 1)).F("hcrit", pick(r, 0.0, 0.3, 1)).F("htaken", pick(r, 0.0, 0.25)).
+			F("hreduce", pick(r, 0.0, 0, 0.2, 0.35)).F("hfatigue", pick(r, 0.0, 0, 0.15))
 	}
 	return op
 }
@@ -440,6 +448,11 @@ func (combatComp) Gen(r *rand.Rand, tier string, n int) []*wire.Case {
 		atk(2, 1, []int{2, 3, 4}, 1, 2, 0.2).I("hadj", 1).I("honly", 3).F("hdmg", 0).F("hcrit", 1).F("htaken", 0), wire.R("endattack"),
 		atk(3, 1, []int{3, 2, 3}, 2, 2, 0.5).I("hadj", 1).I("honly", 0).F("hdmg", 0.5).F("hcrit", 0).F("htaken", 0.1), wire.R("endattack"))
 	// defence pushed to and below its clamp by percentage and flat reductions
+	// a hit listener's damage reduction / fatigue on top of what the unit already has: the remaining shares multiply (10 % and 20 % give 28 %)
+	mk("d-hit-adj-stacking", plainU(1, true, 1), set(plainU(2, false, 1), "reduce", wire.FStr(0.1)), set(plainU(3, false, 1), "fatigue", wire.FStr(0.3)),
+		atk(1, 1, []int{2}, 1, 2, 0.5).I("hadj", 1).I("honly", 0).F("hdmg", 0).F("hcrit", 0).F("htaken", 0).F("hreduce", 0.2).F("hfatigue", 0), wire.R("endattack"),
+		atk(2, 3, []int{1}, 1, 2, 0.5).I("hadj", 1).I("honly", 0).F("hdmg", 0).F("hcrit", 0).F("htaken", 0).F("hreduce", 0).F("hfatigue", 0.15), wire.R("endattack"),
+		atk(3, 1, []int{3}, 1, 2, 0.5).I("hadj", 1).I("honly", 0).F("hdmg", 0).F("hcrit", 0).F("htaken", 0).F("hreduce", 0.2).F("hfatigue", 0.15), wire.R("endattack"))
 	mk("d-def-clamp", plainU(1, true, 1), plainU(2, false, 1).F("defpct", -1.2).F("defflat", 150), plainU(3, false, 1).F("defflat", -800), plainU(4, false, 1).F("defpct", -0.5).F("defflat", 100),
 		atk(1, 1, []int{2, 3, 4}, 1, 2, 0.5), wire.R("endattack"))
 	// weaknesses: innate ones (first of the list) and implanted by a modifier (second), hit by each element and by one it is not weak to
